@@ -220,7 +220,7 @@ def check_case(spec: dict) -> dict:
 @st.composite
 def cases(draw):
     # the root directory's own name may be a string prefix of (or equal to) a package name below it
-    tree = draw(PS.project_trees(root=draw(st.sampled_from(["proj", "proj", "a", "ab", "m"])), max_depth=5))
+    tree = draw(PS.project_trees(root=draw(st.sampled_from(["proj", "proj", "a", "ab", "m"])), max_depth=5, pycache=True))
     tree = draw(PS.with_imports(tree))
     dirs = [""] + tree["dirs"]
     tree["module_path"] = draw(st.sampled_from(dirs)) if draw(st.booleans()) else draw(st.sampled_from(dirs[-2:]))
